@@ -142,6 +142,9 @@ def pattern_for(name, seed):
     return p
 
 
+AS_BUILT = [False]  # C13 sets this to also exercise objects whose buffers are exactly as constructed (e.g. BatchNorm running statistics of zero)
+
+
 def materialise(subject, cfg, pname, seed, dtype=torch.float64, train=False):
     """Build the real object for (subject, cfg, pattern). Construction randomness is owned: manual_seed."""
     with torch.random.fork_rng():
@@ -149,7 +152,8 @@ def materialise(subject, cfg, pname, seed, dtype=torch.float64, train=False):
         m = subject.build(cfg)
     pat = pattern_for(pname, seed)
     fill(m, pat)
-    subject.post(m, cfg, pat)
+    if not (AS_BUILT[0] and pname == "init"):
+        subject.post(m, cfg, pat)
     if pat[0] in ("pat", "init") and subject.kind in ("coupling-spline", "ar-spline", "coupling", "ar"):
         cap_conditioner(subject, cfg, m)  # (a no-op unless some conditioner output exceeds the cap on the probe inputs)
     if dtype == torch.float64:
